@@ -85,6 +85,12 @@ func NewMemoryCache[MetadataT any](cfg *config.Config, memoryBudgetPercent int, 
 		removeEntry: func(key CacheKey) error {
 			return c.deleteInternal(key)
 		},
+		isExpired: func(key CacheKey) bool {
+			c.mu.RLock()
+			entry, ok := c.entries[key]
+			c.mu.RUnlock()
+			return ok && entry.meta.Expires.Before(time.Now())
+		},
 		getCacheSize: func() int64 {
 			return c.byteSize.Get()
 		},
